@@ -318,7 +318,11 @@ pub fn cases(tier: Tier) -> Vec<Case> {
         push(server, Where::Control, frame(rf::MAX_PUSH_ID, 2, &[0x01, 0x02]), false, mp.clone(), "max-push-id-payload-longer");
         push(server, Where::Control, frame(rf::MAX_PUSH_ID, 0, &[]), false, mp, "max-push-id-empty");
         // cut off by the end of the (critical) stream: both the frame error and the closed critical stream are right
-        let crit = vec![FRAME_ERROR, CLOSED_CRITICAL];
+        // cut off by the end of the (critical) stream: the property names H3_FRAME_ERROR for a frame that the end of
+        // the stream cuts off, and that is what is demanded here too (the closed critical stream is the answer to a
+        // control stream that ends ON a frame boundary, which is C04's business)
+        let crit = vec![FRAME_ERROR];
+        let _ = CLOSED_CRITICAL;
         push(server, Where::Control, frame(rf::GOAWAY, 4, &[0x80]), true, crit.clone(), "goaway-cut-by-fin");
         push(server, Where::Control, vec![0x07], true, crit.clone(), "header-cut-by-fin");
         push(server, Where::Control, frame(0x21, 3, b"x"), true, crit.clone(), "grease-cut-by-fin");
